@@ -62,7 +62,7 @@ def build(rnd):
         # two watchers sharing one socket
         for k_ in ('sock', 'ref'):
             ws[1][k_] = ws[0][k_]
-    return {'sockets': socks, 'watchers': ws}
+    return {'sockets': socks, 'watchers': ws, 'stdin_watcher': rnd.random() < .5}
 
 
 def fname(sockname):
@@ -90,6 +90,10 @@ def ini_for(d, conf):
                 % (w['np'], w['name']))
     txt += ('[watcher:plain]\ncmd = %s\nnumprocesses = 1\ngraceful_timeout = 1\ncopy_env = True\n\n'
             % live.worker_cmd({'log': '@LOG@', 'dump': True, 'tagw': 'plain'}))
+    if conf.get('stdin_watcher'):
+        # stdin_socket: the worker gets that socket as its standard input -- and nothing else of the daemon's
+        txt += ('[watcher:sin]\ncmd = %s\nnumprocesses = 1\ngraceful_timeout = 1\ncopy_env = True\nstdin_socket = %s\n\n'
+                % (live.worker_cmd({'log': '@LOG@', 'dump': True, 'tagw': 'sin'}), conf['sockets'][0]['name']))
     return txt
 
 
@@ -156,7 +160,7 @@ def wait_dumps(d, pids, timeout=10.0):
 
 def _case(d, conf, actions, rnd, res):
     d.start()
-    total = sum(w['np'] for w in conf['watchers']) + 1
+    total = sum(w['np'] for w in conf['watchers']) + 1 + (1 if conf.get('stdin_watcher') else 0)
     if conf.get('stale_unix'):
         t_end = time.time() + 10
         while time.time() < t_end and d.proc.poll() is None and not os.path.exists(os.path.join(d.dir, 'ctl')):
@@ -203,7 +207,8 @@ def _case(d, conf, actions, rnd, res):
 
     def inspect(gen_label):
         new = 0
-        for w in conf['watchers'] + [{'name': 'plain', 'sock': None}]:
+        for w in conf['watchers'] + [{'name': 'plain', 'sock': None}] + ([{'name': 'sin', 'sock': None}]
+                                                                          if conf.get('stdin_watcher') else []):
             r = d.call('list', name=w['name'])
             pids = r.get('pids', [])
             dumps = wait_dumps(d, [p for p in pids if p not in inspected])
